@@ -201,7 +201,7 @@ func Cur() *World { return cur }
 // NewWorld creates a world and makes it current. If replay is non-nil the run
 // replays that tape, otherwise choices are generated from seed.
 func NewWorld(seed uint64, replay []uint32) *World {
-	w := &World{Seed: seed, MaxSteps: 2_000_000}
+	w := &World{Seed: seed, MaxSteps: 6_000_000}
 	w.gen.s = seed*0x9e3779b97f4a7c15 + 0x1234567
 	w.dataRng.s = seed ^ 0xdeadbeefcafef00d
 	if replay != nil {
